@@ -307,13 +307,12 @@ theorem parse_second_format (v : Val) (hw : wfVal v = true) (hc : cleanVal v = t
 --   suffices on ARBITRARY token lists (the malformed streams of the `toks` correspondence cases) and
 --   that a non-fuel result is independent of the fuel; there an exhausted budget would show up as the
 --   distinct answer `fuel`, which no run has produced.
--- * text level: `lex (formatText x) = toks (layout x)` — that the formatter's line breaks and
---   indentation only insert white space between tokens, and that the regex lexer returns the
---   string/regex/identifier tokens — is compared on every generated entity, not proved
---   (docstrings and block comments excepted: `scan_fmtDoc`).
--- * that removing the real indentation from a lexed docstring gives the indentation-0 contents
---   (`unindent (fmtDoc k d) = fmtDoc 0 d`, used by the harness to compare docstring tokens) is part of
---   the layout abstraction: compared on every case, not proved.
+-- * text level: the formatter's text is now in the model (`fmtFile`, Text.lean) and the second-format clause is
+--   proved on the text (PropsText.lean).  What is left is the lexer: `lex (fmtFile xs) = (relLines 0 xs).flatMap toksItem`
+--   — that the line breaks and indentation only insert white space between tokens and that the regex lexer
+--   returns the string/regex/identifier tokens — is compared on every generated entity, not proved
+--   (docstrings and block comments excepted: `scan_fmtDoc`).  Docstring tokens are compared raw (the model knows
+--   the indentation of every place), so no indentation is stripped by the harness any more.
 
 /-- F44 (model level): the second formatting differs from the first when a feature value is a
 one-term Conjunction around a one-feature AVM — `[ A [ B x ] ]` comes back as `[ A.B x ]`. -/
@@ -364,8 +363,9 @@ check then reports a broken proof obligation and searches for a failing input.
 * `c15Consts "tfs.FeatureStructure.*"`, `"tdl.ConsList.append"`, `"tdl.DiffList.__init__"`,
   `"tdl._collect_list_items"`, `"tdl.AVM.features"`: the `.` path separator of `setPath/getPath/expand*`, the
   "exactly one feature" test of `_is_notable` (`toksFeat`), `LIST.` of diff lists.
-* `c15Layout` = `_base_indent`, `_max_inline_list_items`, `_line_width`: not in the model (it is layout-free);
-  the generator's list sizes (0–8) and long identifiers are chosen against them so that both layouts occur. -/
+* `c15Layout` = `_base_indent`, `_max_inline_list_items`, `_line_width`: the constants `baseIndent`, `maxInline`,
+  `lineWidth` of the text-level model (Text.lean; tied by `c15_text_pins` in PropsText.lean); the generator's
+  list sizes (0–8, 16, 65, 200) and long identifiers are chosen against them so that both layouts occur. -/
 theorem c15_pins :
     c15LexPattern =
       "(\"\"\")|(\\#\\|)|;([^\\n]*)|\"([^\"\\\\]*(?:\\\\.[^\"\\\\]*)*)\"|'([^\\s!\"#$%&'(),.\\/:;<=>[\\]^|]+)|\\^([^$\\\\]*(?:\\\\.|[^$\\\\]*)*)\\$|(:[=<])|(:\\+)|(\\.\\.\\.)|(\\.)|(&)|(,)|(\\[)|(<!)|(<)|(\\])|(!>)|(>)|\\#([^\\s!\"#$%&'(),.\\/:;<=>[\\]^|]+)|%\\s*\\((.*)\\)\\s*$|%(prefix|suffix)|\\(([^ ]+\\s+(?:[^ )\\\\]|\\\\.)+)\\)|(\\/)|([^\\s!\"#$%&'(),.\\/:;<=>[\\]^|]+)|(:begin)|(:end)|(:type|:instance)|(:status)|(:include)|([^\\s])"
